@@ -210,8 +210,12 @@ class C11:
             cx = canon(xmax)
             bound = ("sub", ("attr", buffered, "bounds"), ("const", 2))
             okx = False
-            if cx[0] == "lin" and len(cx[2]) == 1 and cx[2][0][0] == canon(bound) and cx[2][0][1] == 1 and cx[1] > 0:
-                okx = True
+            if True:
+                from sa.canon import lin, ONE
+                pol = lin(xmax)
+                rest = {m: v for m, v in pol.items() if m != ONE}
+                if rest == {((canon(bound),), ()): 1} and pol.get(ONE, 0) > 0:
+                    okx = True
             if xmin == ("const", 0) and ymin == ("const", 0) and ymax == MAXT and okx:
                 ctx.ok("R11.5", f"{self.file}:{cl[0].lineno} buffer_shapely_geometry", "clip_by_rect(buffered, 0, 0, max_time + c, MAX_FREQUENCY)")
             else:
